@@ -6,6 +6,7 @@ import (
 	"go.minekube.com/gate/pkg/edition/java/proto/packet"
 	"go.minekube.com/gate/pkg/edition/java/proto/state"
 	"go.minekube.com/gate/pkg/edition/java/proxy/message"
+	"go.minekube.com/gate/pkg/gate/proto"
 	zz "go.minekube.com/gate/pkg/internal/zzverif"
 )
 
@@ -228,9 +229,20 @@ func VerifHarness_SendRacesResponse() {
 // After the pre-login event has completed (the Forge relay sends at that stage) a message is written to
 // the client at once. The client answers it exactly once, as soon as it has received it: under every
 // interleaving of the sender and the client's read loop the consumer gets that answer.
+// zzWireConn makes a packet write a scheduling point: the peer can act on a packet as soon as it is on
+// the wire, before the writer runs its next statement.
+type zzWireConn struct{ *zzConn }
+
+func (w *zzWireConn) WritePacket(p proto.Packet) error {
+	err := w.zzConn.WritePacket(p)
+	zz.Yield()
+	return err
+}
+
 func VerifHarness_DirectSendRacesTheOnlyResponse() {
 	zz.MaxPreempt(3)
-	l, conn := zzLoginConn()
+	conn := newZZConn(767, state.Login)
+	l := newLoginInboundConn(newInitialInbound(&zzWireConn{conn}, nil, packet.LoginHandshakeIntent))
 	_ = l.loginEventFired(func() error { return nil })
 	c := &zzConsumer{l: l}
 	answered := false
